@@ -208,6 +208,7 @@ pub fn run_once(program: &Program, prefix: &[u32]) -> Execution {
     let mut choices = Vec::new();
     let mut steps = Vec::new();
     let mut state_hashes = Vec::new();
+    let phash = hash_of(program);
     let mut running: Option<usize> = None;
     let mut preemptions = 0u32;
     let mut outcome = Outcome::Completed;
@@ -240,13 +241,25 @@ pub fn run_once(program: &Program, prefix: &[u32]) -> Execution {
             outcome = Outcome::Deadlock;
             break;
         }
+        // Invisible steps commute with everything and disable nobody: starting an actor (it runs
+        // thread-local code up to its first real point) and the exit of a collector actor (its
+        // thread owns no command queue). Run them at once, without a decision.
+        if let Some(&inv) = enabled.iter().find(|&&i| {
+            matches!(w.actors[i].pending, Some(Pending::Start))
+                || (matches!(w.actors[i].pending, Some(Pending::Exit))
+                    && matches!(program.actors[i].kind, ActorKind::Collector { .. }))
+        }) {
+            steps.push((inv, w.actors[inv].pending.clone().unwrap()));
+            s.grant(w, inv);
+            continue;
+        }
         let running_enabled = running.map_or(false, |r| enabled.contains(&r));
         if running_enabled {
             let r = running.unwrap();
             enabled.retain(|&x| x != r);
             enabled.insert(0, r);
         }
-        state_hashes.push(state_hash(&w));
+        state_hashes.push(state_hash(&w) ^ phash);
         let chosen = if enabled.len() > 1 {
             let d = decisions.len();
             let c = if d < prefix.len() { prefix[d] } else { 0 };
